@@ -570,3 +570,193 @@ M("C14", "tokens-not-wired", "breaking",
   "U5:server.config:ServerConfig.get_upload_handler:field-crossed:auth_tokens")
 M("C14", "benign-path-replace", "benign",
   [(H, UH, "                os.replace(tmp_path, target)\n", "                tmp_path.replace(target)\n")])
+
+# ---------------------------------------------------------------- C12
+TF = "security/tofu.py"
+IT = "TOFUDatabase.import_toml"
+M("C12", "revert-fix-clear-before-import", "breaking",
+  [(TF, IT, "            if not merge:\n                cursor.execute(\"DELETE FROM known_hosts\")\n", ""),
+   (TF, IT, "        added_count = 0\n", "        if not merge:\n            self.clear()\n\n        added_count = 0\n")],
+  "D2:security.tofu:TOFUDatabase.import_toml:nested-commit:clear")
+M("C12", "revert-fix-second-connection-lookup", "breaking",
+  [(TF, IT, "                cursor.execute(\n                    \"SELECT fingerprint FROM known_hosts \"\n                    \"WHERE hostname = ? AND port = ?\",\n                    (hostname, port),\n                )\n                row = cursor.fetchone()\n                existing = dict(row) if row is not None else None\n", "                existing = self.get_host_info(hostname, port)\n")],
+  "D3:security.tofu:TOFUDatabase.import_toml:second-connection:get_host_info")
+M("C12", "commit-per-entry", "breaking",
+  [(TF, IT, "                    added_count += 1\n", "                    added_count += 1\n                    conn.commit()\n")],
+  "D1:security.tofu:TOFUDatabase.import_toml:commit-in-loop")
+M("C12", "autocommit-connection", "breaking",
+  [(TF, "TOFUDatabase._connection", "conn = sqlite3.connect(str(self.db_path))", "conn = sqlite3.connect(str(self.db_path), isolation_level=None)")],
+  "D4:security.tofu:TOFUDatabase._connection:autocommit")
+M("C12", "commit-on-exit", "breaking",
+  [(TF, "TOFUDatabase._connection", "        finally:\n            conn.close()\n", "        finally:\n            conn.commit()\n            conn.close()\n")],
+  "D4:security.tofu:TOFUDatabase._connection:commit-on-exit")
+M("C12", "trust-forgets-commit-on-update", "breaking",
+  [(TF, "TOFUDatabase.trust", "                    (fingerprint, now, hostname, port),\n                )\n\n            conn.commit()\n", "                    (fingerprint, now, hostname, port),\n                )\n                return\n\n            conn.commit()\n")],
+  "D1:security.tofu:TOFUDatabase.trust:dml-without-commit")
+M("C12", "import-key-split", "breaking",
+  [(TF, IT, "                hostname = host_data[\"hostname\"]\n                port = host_data[\"port\"]\n", "                hostname, _, _p = key.rpartition(\":\")\n                port = host_data[\"port\"]\n")],
+  "D5:security.tofu:TOFUDatabase.import_toml")
+M("C12", "insert-drops-first-seen", "breaking",
+  [(TF, IT, "(hostname, port, fingerprint, first_seen, now),", "(hostname, port, fingerprint, now, now),")],
+  "D5:security.tofu:TOFUDatabase.import_toml:insert-crossed:first_seen")
+M("C12", "export-port-from-wrong-column", "breaking",
+  [(TF, "TOFUDatabase.export_toml", "\"first_seen\": host[\"first_seen\"],", "\"first_seen\": host[\"last_seen\"],")],
+  "D5:security.tofu:TOFUDatabase.export_toml:export-key:first_seen")
+M("C12", "revoke-without-port", "breaking",
+  [(TF, "TOFUDatabase.revoke", "\"DELETE FROM known_hosts WHERE hostname = ? AND port = ?\",\n                (hostname, port),", "\"DELETE FROM known_hosts WHERE hostname = ?\",\n                (hostname,),")],
+  "D6:security.tofu:TOFUDatabase.revoke:key:DELETE")
+M("C12", "update-args-swapped", "breaking",
+  [(TF, "TOFUDatabase.trust", "(fingerprint, now, hostname, port),", "(fingerprint, now, port, hostname),")],
+  "D6:security.tofu:TOFUDatabase.trust:key:UPDATE")
+M("C12", "benign-rename-cursor", "benign",
+  [(TF, "TOFUDatabase.revoke", "cursor = conn.cursor()", "cur = conn.cursor()"),
+   (TF, "TOFUDatabase.revoke", "cursor.", "cur.", -1)])
+
+# ---------------------------------------------------------------- C03
+SS = "client/session.py"
+GS = "GeminiClient._get_single"
+ELSE_RAISE = "                else:\n                    # No certificate could be read from the connection: there\n                    # is nothing to check the pin against, so refuse rather\n                    # than treating the host as unpinned or trusted\n                    raise ConnectionError(\n                        f\"Could not read the server certificate of \"\n                        f\"{parsed.hostname}:{parsed.port}; refusing connection \"\n                        f\"(TOFU verification impossible)\"\n                    )\n"
+M("C03", "revert-fix-fail-open-get", "breaking",
+  [(SS, GS, ELSE_RAISE, "")],
+  "T1:client.session:GeminiClient._get_single")
+M("C03", "revert-fix-fail-open-upload", "breaking",
+  [(SS, "GeminiClient.upload", ELSE_RAISE, "")],
+  "client.session:GeminiClient")
+M("C03", "changed-message-inverted", "breaking",
+  [(SS, GS, "if not is_valid and message == \"changed\":", "if not is_valid and message != \"changed\":")],
+  "T2:client.session:GeminiClient._get_single:changed-accepted")
+M("C03", "trust-before-raise", "breaking",
+  [(SS, GS, "                        new_fingerprint = get_certificate_fingerprint(cert)\n", "                        new_fingerprint = get_certificate_fingerprint(cert)\n                        self.tofu_db.trust(parsed.hostname, parsed.port, cert)\n")],
+  "T3:client.session:GeminiClient._get_single:mutation-on-failure")
+M("C03", "first-use-pins-wrong-port", "breaking",
+  [(SS, GS, "self.tofu_db.trust(parsed.hostname, parsed.port, cert)", "self.tofu_db.trust(parsed.hostname, 1965, cert)")],
+  "T2:client.session:GeminiClient._get_single:first-use-not-pinned")
+M("C03", "changed-only-warns", "breaking",
+  [(SS, GS, "                        raise CertificateChangedError(\n                            parsed.hostname,\n                            parsed.port,\n                            old_fingerprint,\n                            new_fingerprint,\n                        )\n", "                        import warnings\n                        warnings.warn(f\"certificate changed {old_fingerprint} {new_fingerprint}\")\n")],
+  "T2:client.session:GeminiClient._get_single:changed-accepted")
+M("C03", "fingerprint-sha1-default", "breaking",
+  [("security/certificates.py", "get_certificate_fingerprint", "algorithm: str = \"sha256\"", "algorithm: str = \"sha1\"")],
+  "T4:security.certificates:get_certificate_fingerprint:fingerprint-definition")
+M("C03", "fingerprint-truncated", "breaking",
+  [("security/certificates.py", "get_certificate_fingerprint", "digest = hashlib.sha256(cert_der).hexdigest()", "digest = hashlib.sha256(cert_der).hexdigest()[:16]")],
+  "T4:security.certificates:get_certificate_fingerprint:fingerprint-truncated")
+M("C03", "verify-prefix-compare", "breaking",
+  [(TF, "TOFUDatabase.verify", "if stored_fingerprint == fingerprint:", "if stored_fingerprint[:20] == fingerprint[:20]:")],
+  "T4:security.tofu:TOFUDatabase.verify")
+M("C03", "verify-without-port", "breaking",
+  [(TF, "TOFUDatabase.verify", "\"SELECT fingerprint FROM known_hosts WHERE hostname = ? AND port = ?\",\n                (hostname, port),", "\"SELECT fingerprint FROM known_hosts WHERE hostname = ?\",\n                (hostname,),")],
+  "T5:security.tofu:TOFUDatabase.verify:key:SELECT")
+M("C03", "verify-new-outcome-unhandled", "breaking",
+  [(TF, "TOFUDatabase.verify", "            # Certificate has changed\n            return False, \"changed\"\n", "            # Certificate has changed\n            if stored_fingerprint.startswith(\"sha1:\"):\n                return False, \"legacy\"\n            return False, \"changed\"\n")],
+  "T2:client.session:GeminiClient")
+M("C03", "redirect-hop-direct-connect", "breaking",
+  [(SS, "GeminiClient._get_with_redirects", "            return await self._get_with_redirects(\n                redirect_url,", "            return await self._get_with_redirects(\n                url,")],
+  "T6:client.session:GeminiClient._get_with_redirects:hop-bypasses-verification")
+M("C03", "upload-region-diverges", "breaking",
+  [(SS, "GeminiClient.upload", "if not is_valid and message == \"changed\":", "if (not is_valid) and message == \"changed\" and self.verify_ssl:")],
+  "client.session:GeminiClient")
+M("C03", "benign-rename-message", "benign",
+  [(SS, GS, "is_valid, message = self.tofu_db.verify(", "is_valid, verdict = self.tofu_db.verify("),
+   (SS, GS, "if not is_valid and message == \"changed\":", "if not is_valid and verdict == \"changed\":"),
+   (SS, GS, "elif message == \"first_use\":", "elif verdict == \"first_use\":"),
+   (SS, "GeminiClient.upload", "is_valid, message = self.tofu_db.verify(", "is_valid, verdict = self.tofu_db.verify("),
+   (SS, "GeminiClient.upload", "if not is_valid and message == \"changed\":", "if not is_valid and verdict == \"changed\":"),
+   (SS, "GeminiClient.upload", "elif message == \"first_use\":", "elif verdict == \"first_use\":")])
+
+# ---------------------------------------------------------------- C11
+CP = "client/protocol.py"
+M("C11", "revert-fix-write-in-connection-made", "breaking",
+  [(CP, "GeminiClientProtocol.connection_made", "        if self.send_on_connect:\n            self.send_request()\n", "        self.send_request()\n")],
+  "F1:client.protocol:GeminiClientProtocol.connection_made:write-in-connection_made")
+M("C11", "titan-content-at-connect", "breaking",
+  [(CP, "TitanClientProtocol.connection_made", "        if self.send_on_connect:\n            self.send_request()\n", "        if self.transport:\n            self.transport.write(f\"{self.titan_url}\\r\\n\".encode())\n        if self.send_on_connect:\n            self.send_request()\n")],
+  "F1:client.protocol:TitanClientProtocol.connection_made:write-in-connection_made")
+M("C11", "session-does-not-defer-upload", "breaking",
+  [(SS, "GeminiClient.upload", "titan_url, content_bytes, response_future, send_on_connect=not self.tofu_db", "titan_url, content_bytes, response_future")],
+  "F1:client.session:GeminiClient.upload:not-deferred:TitanClientProtocol")
+M("C11", "session-defer-flag-inverted", "breaking",
+  [(SS, GS, "send_on_connect=not self.tofu_db", "send_on_connect=bool(self.tofu_db)")],
+  "F1:client.session:GeminiClient._get_single:not-deferred:GeminiClientProtocol")
+M("C11", "send-before-verify", "breaking",
+  [(SS, GS, "                cert = protocol.get_peer_certificate()\n", "                protocol.send_request()\n                cert = protocol.get_peer_certificate()\n")],
+  "F2:client.session:GeminiClient._get_single:send-before-verify")
+M("C11", "send-even-when-changed", "breaking",
+  [(SS, GS, "                        new_fingerprint = get_certificate_fingerprint(cert)\n", "                        new_fingerprint = get_certificate_fingerprint(cert)\n                        protocol.send_request()\n")],
+  "F2:client.session:GeminiClient._get_single:send-on-failed-verdict")
+M("C11", "never-sends-under-tofu", "breaking",
+  [(SS, GS, "                # Certificate verified: now the request may go out\n                protocol.send_request()\n", "")],
+  "F2:client.session:GeminiClient._get_single")
+M("C11", "benign-flag-name", "benign",
+  [(CP, None, "send_on_connect", "send_immediately", -1), (SS, None, "send_on_connect", "send_immediately", -1)])
+
+# ---------------------------------------------------------------- C13
+CL = "GeminiClientProtocol.connection_lost"
+M("C13", "revert-fix-lookup-error", "breaking",
+  [(CP, CL, "except (UnicodeDecodeError, LookupError) as e:", "except UnicodeDecodeError as e:")],
+  "E1:client.protocol:GeminiClientProtocol.connection_lost:uncaught:LookupError")
+M("C13", "done-test-removed-and-early-return", "breaking",
+  [(CP, CL, "        if not self.header_received:\n            self.response_future.set_exception(\n                ConnectionError(\"Connection closed before receiving response\")\n            )\n            return\n", "        if not self.header_received:\n            return\n")],
+  "E1:client.protocol:GeminiClientProtocol.connection_lost:unresolved-exit")
+M("C13", "status-range-widened", "breaking",
+  [(CP, "GeminiClientProtocol._parse_header", "if not (10 <= self.status < 70):", "if not (10 <= self.status < 100):")],
+  "E2:client.protocol:GeminiClientProtocol._parse_header:status-range")
+M("C13", "body-for-redirects", "breaking",
+  [(CP, CL, "        if 20 <= self.status < 30:  # type: ignore\n", "        if 20 <= self.status < 40:  # type: ignore\n")],
+  "E2:client.protocol:GeminiClientProtocol.connection_lost:body-table")
+M("C13", "body-stripped", "breaking",
+  [(CP, CL, "                body = self.buffer\n", "                body = self.buffer.strip()\n")],
+  "E2:client.protocol:GeminiClientProtocol.connection_lost:body-source")
+M("C13", "cap-check-removed", "breaking",
+  [(CP, "TitanClientProtocol.data_received", "        if len(self.buffer) > MAX_RESPONSE_BODY_SIZE:", "        if False:")],
+  "E3:client.protocol:TitanClientProtocol.data_received")
+M("C13", "cap-no-close", "breaking",
+  [(CP, "GeminiClientProtocol.data_received", "            )\n            self.transport.close()  # type: ignore\n", "            )\n")],
+  "E3:client.protocol:GeminiClientProtocol.data_received:cap-not-enforced")
+M("C13", "future-awaited-unbounded", "breaking",
+  [(SS, GS, "            response: GeminiResponse = await asyncio.wait_for(\n                response_future, timeout=self.timeout\n            )\n", "            response: GeminiResponse = await response_future\n")],
+  "E4:client.session:GeminiClient._get_single:unbounded-wait")
+M("C13", "transport-not-closed-on-error", "breaking",
+  [(SS, "GeminiClient.upload", "        finally:\n            # Ensure transport is closed\n            transport.close()\n", "        else:\n            transport.close()\n")],
+  "E4:client.session:GeminiClient.upload:transport-leak")
+M("C13", "titan-sibling-diverges", "breaking",
+  [(CP, "TitanClientProtocol._parse_header", "self.meta = parts[1] if len(parts) > 1 else \"\"", "self.meta = parts[1].strip() if len(parts) > 1 else \"\"")],
+  "E5:client.protocol:TitanClientProtocol._parse_header:sibling-divergence")
+M("C13", "benign-tuple-order", "benign",
+  [(CP, CL, "except (UnicodeDecodeError, LookupError) as e:", "except (LookupError, UnicodeDecodeError) as e:"),
+   (CP, "TitanClientProtocol.connection_lost", "except (UnicodeDecodeError, LookupError) as e:", "except (LookupError, UnicodeDecodeError) as e:")])
+M("C13", "benign-catch-all-decode", "benign",
+  [(CP, CL, "except (UnicodeDecodeError, LookupError) as e:", "except Exception as e:"),
+   (CP, "TitanClientProtocol.connection_lost", "except (UnicodeDecodeError, LookupError) as e:", "except Exception as e:")])
+
+# ---------------------------------------------------------------- C16
+RF = "GeminiClient._get_with_redirects"
+M("C16", "revert-fix-off-by-one", "breaking",
+  [(SS, RF, "if len(redirect_chain) > max_redirects:", "if len(redirect_chain) >= max_redirects:")],
+  "G1:client.session:GeminiClient._get_with_redirects:fetch-bound")
+M("C16", "limit-plus-one", "breaking",
+  [(SS, RF, "if len(redirect_chain) > max_redirects:", "if len(redirect_chain) > max_redirects + 1:")],
+  "G1:client.session:GeminiClient._get_with_redirects:fetch-bound")
+M("C16", "chain-not-extended", "breaking",
+  [(SS, RF, "            redirect_chain.append(url)\n", "")],
+  "G1:client.session:GeminiClient._get_with_redirects:fetch-bound")
+M("C16", "fresh-chain-per-hop", "breaking",
+  [(SS, RF, "                redirect_chain=redirect_chain,\n", "                redirect_chain=[url],\n")],
+  "G1:client.session:GeminiClient._get_with_redirects:fetch-bound")
+M("C16", "overrun-returns-response", "breaking",
+  [(SS, RF, "        if len(redirect_chain) > max_redirects:\n            raise ValueError(f\"Maximum redirects ({max_redirects}) exceeded at: {url}\")\n", "        if len(redirect_chain) > max_redirects:\n            return GeminiResponse(status=30, meta=url, url=url)\n")],
+  "G3:client.session:GeminiClient._get_with_redirects:not-an-error")
+M("C16", "scheme-prefix-too-short", "breaking",
+  [(SS, RF, "if not redirect_url.startswith(\"gemini://\"):", "if not redirect_url.startswith(\"gemini\"):")],
+  "G2:client.session:GeminiClient._get_with_redirects:scheme-filter")
+M("C16", "scheme-check-dropped", "breaking",
+  [(SS, RF, "            if not redirect_url.startswith(\"gemini://\"):\n                return response\n", "")],
+  "G2:client.session:GeminiClient._get_with_redirects:scheme-filter")
+M("C16", "loop-test-after-fetch", "breaking",
+  [(SS, RF, "        if url in redirect_chain:\n            raise ValueError(f\"Redirect loop detected: {url}\")\n\n", ""),
+   (SS, RF, "        # If it's a redirect, follow it\n", "        if url in redirect_chain:\n            raise ValueError(f\"Redirect loop detected: {url}\")\n\n        # If it's a redirect, follow it\n")],
+  "G5:client.session:GeminiClient._get_with_redirects:loop-detection")
+M("C16", "no-follow-still-follows", "breaking",
+  [(SS, "GeminiClient.get", "            return await self._get_single(url)\n", "            return await self._get_with_redirects(url, max_redirects=1)\n")],
+  "G4:client.session:GeminiClient.get:get-dispatch")
+M("C16", "benign-for-range-idiom-rename", "benign",
+  [(SS, RF, "redirect_chain", "visited", -1)])
